@@ -138,6 +138,22 @@ def set_config_event(ev, s, o, gam, h=1, k=0):
         return None
 
 
+def copy_event(ev, s, o, gam, h=1, h2=8, how="copy"):
+    """History step: copy.copy / copy.deepcopy / pickle round trip of the live object.  Returns the copy."""
+    import copy
+    import pickle
+    e = ev("Copy", h=h, h2=h2, how=how, post=dict(EMPTY_POST))
+    try:
+        s2 = copy.copy(s) if how == "copy" else copy.deepcopy(s) if how == "deepcopy" else pickle.loads(pickle.dumps(s))
+        vals = list(o["pos"]) + list(o["neg"]) + [0]
+        e["post"] = alpha_obj(s2, inv_map(gam, min(vals) - 2, max(vals) + 3) if max(vals) > 35 or min(vals) < -35
+                              else inv_map(gam))
+        return s2
+    except Exception as ex:  # noqa
+        e["exc"] = exc_str(ex)
+        return None
+
+
 def set_scores_event(ev, s, o, gam, cls_="neg", h=1):
     """History step: one score array of the live object is re-bound to a NEW sorted array (its lowest score
     dropped, one higher score added; via the FraudScores setters when the object has them).  Returns the
